@@ -350,6 +350,22 @@ def gen_cases(seed, tier):
         f = gen_csv_file(rnd)
         ws = file_words(render_csv(f))
         cases.append({'kind': 'csv', 'file': f, 'txns': [gen_txn(rnd, ws) for _ in range(4)]})
+    # boundary stream for the legacy modifiers: the modified row wins exactly when the modifier holds
+    def brow(mod):
+        return {'rows': [{'pattern': 'UBER' + mod, 'merchant': 'With Modifier', 'category': 'A', 'subcategory': 'a', 'tags': ['m']},
+                         {'pattern': 'UBER', 'merchant': 'Plain', 'category': 'B', 'subcategory': '', 'tags': []}], 'tfs': []}
+
+    def btx(a=6432, date='2025-01-15'):
+        return {'d': 'Uber 77', 'a': a, 'date': date, 'field': None, 'source': None, 'location': None}
+    for op in ('>', '>=', '<', '<=', '='):
+        cases.append({'kind': 'csv', 'file': brow(f'[amount{op}100.5]'), 'txns': [btx(a) for a in (6431, 6432, 6433, -6432, None)]})
+    cases.append({'kind': 'csv', 'file': brow('[amount:50-200]'), 'txns': [btx(a) for a in (3199, 3200, 3201, 12799, 12800, 12801)]})
+    cases.append({'kind': 'csv', 'file': brow('[date=2025-01-15]'), 'txns': [btx(date=d) for d in ('2025-01-14', '2025-01-15', '2025-01-16', None)]})
+    cases.append({'kind': 'csv', 'file': brow('[date:2025-01-15..2025-03-01]'),
+                  'txns': [btx(date=d) for d in ('2025-01-14', '2025-01-15', '2025-02-28', '2025-03-01', '2025-03-02')]})
+    cases.append({'kind': 'csv', 'file': brow('[month=3]'), 'txns': [btx(date=d) for d in ('2025-02-28', '2025-03-01', '2025-03-31', '2025-04-01')]})
+    cases.append({'kind': 'csv', 'file': brow('[amount>50][date:2024-12-31..2025-01-15][month=1]'),
+                  'txns': [btx(a, d) for a in (3200, 3201) for d in ('2024-12-31', '2025-01-15', '2025-01-16')]})
     # hand-written corner files: tag-only first, skipped rule, winner third; F1 witness
     cases.append({'kind': 'csv', 'file': {'rows': [{'pattern': '(UBER|LYFT)', 'merchant': 'Rides', 'category': 'Transport',
                                                      'subcategory': 'Rideshare', 'tags': []}], 'tfs': []},
@@ -434,7 +450,7 @@ def main(tier):
     if broken and not found_unlisted:
         run.violation('broken', {'kind': broken[0]['kind'], 'obligation': broken[0].get('obligation') or
                                  (broken[0]['detail'].get('obligation') if isinstance(broken[0]['detail'], dict) else None),
-                                 'broken': broken, 'searched': f'{len(cases)} files x 4 transactions + {sum(stats["variants"].values())} '
+                                 'broken': broken, 'searched': f'{len(cases)} files x ~4 transactions + {sum(stats["variants"].values())} '
                                  'metamorphic variants against the C01 oracles; no failing input beyond listed findings'},
                       found_input=False)
 
